@@ -32,8 +32,9 @@ def expected(cases, atm, atmcol):
     return out, r
 
 
-def make_geo(kind, nlay, surf, atm, conv, angle, order):
+def make_geo(kind, nlay, surf, atm, conv, angle, order, offmid=False, via=None):
     m = core.repo_modules("mulgrids")
+    atm0, atm = atm, (atm if via is None else via)
     with core.quiet():
         if kind == "1x2":
             geo = m.mulgrid().rectangular([10.0, 20.0], [10.0], [10.0] * nlay, convention=conv, atmos_type=atm, block_order=order)
@@ -47,11 +48,19 @@ def make_geo(kind, nlay, surf, atm, conv, angle, order):
             geo = m.mulgrid().rectangular([10.0, 10.0], [10.0], [10.0] * nlay, convention=conv, atmos_type=atm, block_order=order)
             geo.split_column(geo.columnlist[0].name, geo.columnlist[0].node[0].name)
         geo.permeability_angle = angle
+        if offmid:
+            # a layer record may carry a centre that is not at mid-height
+            lay = geo.layerlist[1 + (len(surf) + nlay) % nlay]
+            lay.centre = lay.bottom + 0.25 * (lay.top - lay.bottom)
         for c, s in zip(geo.columnlist, surf):
             c.surface = geo.layerlist[0].bottom + s * H
             geo.set_column_num_layers(c)
         geo.setup_block_name_index()
         geo.setup_block_connection_name_index()
+        if via is not None:
+            # the atmosphere type reached through the property, from a geometry made with another one: the property setter
+            # itself has to leave the name lists current (nothing is refreshed by hand afterwards)
+            geo.atmosphere_type = atm0
     return geo
 
 
@@ -277,14 +286,17 @@ def run(tier):
                     conv = rng.choice([0, 0, 1, 2, 3])
                     order = rng.choice([None, "layer_column"] + ([] if kind in ("tri",) and False else ["dmplex"]))
                     angle = rng.choice([0.0, 0.0, 30.0, 90.0])
-                    cases[atm].append((kind, nlay, surf, atm, conv, angle, order))
+                    offmid = rng.random() < 0.25
+                    via = rng.choice([None, None, (atm + 1) % 3, (atm + 2) % 3])
+                    cases[atm].append((kind, nlay, surf, atm, conv, angle, order, offmid, via))
     n = 0
     for atm in (0, 1, 2):
         geos, states = [], []
-        for (kind, nlay, surf, a, conv, angle, order) in cases[atm]:
-            geo = make_geo(kind, nlay, surf, a, conv, angle, order)
+        for (kind, nlay, surf, a, conv, angle, order, offmid, via) in cases[atm]:
+            geo = make_geo(kind, nlay, surf, a, conv, angle, order, offmid, via)
             ad = mgmodel.Adapter(geo)
             st = ad.project()
+            st["lctr2"] = [int(round(2 * l.centre / H)) for l in geo.layerlist]
             if not st["lattice"]:
                 raise tlc.MachineryError("case geometry is off the lattice")
             geos.append(geo)
@@ -294,7 +306,7 @@ def run(tier):
         rep.add_tlc("GeoToGrid AtmType=%d: expected blocks, connections, volumes, areas, distances for %d geometries" % (atm, len(states)), r)
         for geo, exp, c in zip(geos, exps, cases[atm]):
             desc = {"mesh": c[0], "layers": c[1], "surface_offsets": list(c[2]), "atmos_type": c[3], "convention": c[4],
-                    "permeability_angle": c[5], "block_order": c[6]}
+                    "permeability_angle": c[5], "block_order": c[6], "off_mid_layer_centre": c[7], "atmosphere_type_assigned_from": c[8]}
             # the atmosphere column name depends on the convention: the spec's "ATM" stands for it
             exp = json.loads(json.dumps(exp).replace('"ATM"', json.dumps(geo.atmosphere_column_name))) if atm == 0 else exp
             rep.case(json.dumps(desc, sort_keys=True))
